@@ -323,6 +323,19 @@ def tier_seed(argv):
     ap.add_argument("--seed", type=int, default=int(os.environ.get("VERIF_SEED", "1") or 1))
     ap.add_argument("--replay", default=None)
     a = ap.parse_args(argv)
+    if a.replay:
+        # a replay file names the seeded run that produced it: the same tier and seed reproduce the same operations on the
+        # current tree (every random choice of every driver derives from that one seed)
+        try:
+            j = json.load(open(a.replay))
+            a.seed = int(j.get("seed", a.seed))
+            base = os.path.basename(a.replay)
+            if "-thorough-" in base:
+                a.tier = "thorough"
+            elif "-quick-" in base:
+                a.tier = "quick"
+        except Exception as e:
+            print("cannot read replay file %s: %s" % (a.replay, e))
     if a.tier not in ("quick", "thorough"):
         a.tier = "quick"
     return a
